@@ -66,7 +66,13 @@ def sr1(ctx, R):
                     via_table = True
         R.check(via_table, "%s::type code table" % c.qual, where, "data_type = DAQMX_TYPES[code]", "scaler data type is not taken from DAQMX_TYPES")
     # the three places that know the set of DAQmx index headers agree
-    nso = prog.func("tdms_segment.TdmsSegment._new_segment_object")
+    # the segment object factory, found by what it does: it constructs a DaqmxSegmentObject for some index headers
+    dso = prog.cls("daqmx.DaqmxSegmentObject")
+    facs = [f for f in sorted(prog.functions.values(), key=lambda f: f.qual) if f.module.name == "tdms_segment" and any(
+        isinstance(c, ast.Call) and isinstance(c.func, (ast.Name, ast.Attribute)) and prog.resolve_class(f.module, c.func) is dso for c in walk_body(f.node))]
+    if not facs:
+        raise AnchorMissing("tdms_segment: function constructing DaqmxSegmentObject")
+    nso = facs[0]
     rri = prog.func("daqmx.DaqmxSegmentObject.read_raw_data_index")
 
     def header_values(fi):
